@@ -61,7 +61,7 @@ def hashFn (alg : String) (b : Bytes) : Bytes :=
 
 def errName : Err → String
   | .valueError => "ValueError" | .suitError => "SUITError" | .osError => "OSError"
-  | .internal k => "internal:" ++ k | .fuel => "model-fuel"
+  | .internal k => "internal:" ++ k | .fuel => "model-fuel" | .model w => "model-" ++ w
 
 def ctxOf (j : Json) : M Encode.Ctx := do
   let files ← match fieldOpt j "fs" with
